@@ -202,4 +202,25 @@ def Enabled (s : MState) : Ev → Prop
   | .interested a => ∃ p, findPeer s a = some p
   | .notInterested a _ => ∃ p, findPeer s a = some p
 
+/-! ### When extraction starts (`extract_files_when_complete`) -/
+
+/-- The events after which the manager looks whether everything is owned: a stored piece and a disconnect.
+    (`onKillOnly = true` is the code as it was: only a disconnect.) -/
+def checksCompletion (onKillOnly : Bool) : Ev → Bool
+  | .pieceDone _ _ => !onKillOnly
+  | .kill _ => true
+  | _ => false
+
+/-- Manager state with the `files_extracted` flag. -/
+structure XState where
+  m : MState
+  extracted : Bool := false
+  deriving Repr, DecidableEq
+
+def xstep (onKillOnly : Bool) (x : XState) (ev : Ev) : Option (XState × Reply) :=
+  match mstep x.m ev with
+  | .ok s' r =>
+    some ({ m := s', extracted := x.extracted || (checksCompletion onKillOnly ev && decide (stillMissing s'.statuses = 0)) }, r)
+  | .panic _ => none
+
 end Rdest.Swarm
